@@ -417,8 +417,10 @@ class SyncImpl(D.Impl):
         self.srnd = srnd
         self.sync_used = []
         self.plan = plan          # fixed outcomes per event (corpus), else random
+        self.pre = []             # per event, BEFORE it: (attempt pending, timer armed, transport live, closed)
 
     def apply(self, ev):
+        self.pre.append((self.attempt() is not None, self.timer() is not None, self.transport() is not None, self.closed))
         if self.plan is not None:
             mode = self.plan.pop(0) if self.plan else None
         else:
@@ -465,7 +467,25 @@ def closed_monitor(records, transport_live):
     return None
 
 
+def idle_monitor(im, pid):
+    """a request made on an idle client (no connection, no attempt, no timer, not closed) must be written or start a
+    connection attempt in that very call - otherwise it can never complete (C06: completes exactly once;
+    C10_idle_connects_on_request / C10_never_stuck)"""
+    for idx, ((ev, _c, outs, en), pre) in enumerate(zip(im.records, im.pre)):
+        if ev[0] == "make" and en and ("raised", 1) not in outs and not any(pre):
+            if not any(o[0] in ("connect", "write") for o in outs) and not any(o[0] == "def" for o in outs):
+                return ("C06_exactly_once" if pid == "C06" else "C10_idle_connects_on_request",
+                        "makeRequest(%d) on an idle client neither wrote the request nor started a connection attempt: its Deferred can never fire" % ev[1], idx)
+    return None
+
+
 SYNC_CORPUS = [
+    # connect succeeds inside makeRequest, the reply comes, the connection drops while idle, then a new request / close()
+    ([("make", 1, True), ("frame", D.reply(1)), ("lost",), ("make", 2, True), ("close",)], ["ok", None, None, None, None]),
+    ([("make", 1, True), ("frame", D.reply(1)), ("lost",), ("make", 2, True), ("frame", D.reply(2)), ("close",), ("lost",)], ["ok", None, None, "ok", None, None, None]),
+    ([("make", 1, True), ("frame", D.reply(1)), ("lost",), ("make", 2, False), ("fire",), ("close",)], ["ok", None, None, "fail", "ok", None]),
+    ([("make", 1, True), ("cancel", 0), ("lost",), ("close",)], ["ok", None, None, None]),
+    ([("make", 1, True), ("fire",), ("frame", D.reply(1)), ("lost",), ("make", 2, True)], ["fail", "ok", None, None, None]),
     # (events, synchronous outcome of the connect made by each event or None)
     ([("make", 1, True), ("close",), ("fire",), ("make", 2, True)], ["fail", None, None, None]),                 # close during back-off after a synchronous failure
     ([("make", 1, True), ("fire",), ("close",), ("fire",)], ["fail", "fail", None, None]),
@@ -497,7 +517,9 @@ def sync_connect_part(ck, rnd, n, tied):
             g = SyncGen(rnd, profile=rnd.choice(["c10", "c06"]), length=rnd.choice([8, 20, 40, 70]), policy_kind=pk, end_close=rnd.random() < 0.3)
             g.im = SyncImpl(pk, rnd, rnd)
             events, records = g.run()
-        cm = closed_monitor(records, g.im.transport() is not None)
+        cm = idle_monitor(g.im, ck.pid) or closed_monitor(records, g.im.transport() is not None)
+        if cm and ck.pid == "C06" and cm[0].startswith("C10"):
+            cm = ("C06_exactly_once", cm[1], cm[2])
         if cm and mon_bad is None:
             mon_bad = (cm, events, list(g.im.sync_used), pk)
         mev = []
@@ -1450,3 +1472,16 @@ def replay_write(rp):
             print("differs from the model:", mt)
             rc = 1
     return rc
+
+
+def replay_sync(rp):
+    events = D.unjson(rp["events"])
+    im = SyncImpl(rp.get("policy", "const"), None, None, list(rp.get("sync_outcomes", [])))
+    for ev in events:
+        im.apply(ev)
+    print(rp.get("kind"), "|", rp.get("message", ""))
+    for (ev, c, outs, en), u in zip(im.records, im.sync_used):
+        print("  %-30r connect() completes synchronously: %-5r connected=%d %r" % (ev if ev[0] not in ("data", "frame") else (ev[0], list(ev[1])), u, c, outs))
+    cm = idle_monitor(im, rp.get("property", "C10")) or closed_monitor(im.records, im.transport() is not None)
+    print("monitor verdict now:", cm)
+    return 1 if cm else 0
